@@ -51,6 +51,13 @@ func c06Case(c *rep.Ctx, r c06Replay) {
 	var err error
 	opts := []gtree.Option{gtree.WithTargetDir(target), gtree.WithFileExtensions(r.Exts)}
 	switch r.Target {
+	case "trailing-slash":
+		opts[0] = gtree.WithTargetDir(target + "/")
+	case "relative":
+		wd, _ := os.Getwd()
+		os.Chdir(filepath.Dir(target))
+		defer os.Chdir(wd)
+		opts[0] = gtree.WithTargetDir("./" + filepath.Base(target) + "/.")
 	case "cwd-empty-option", "cwd-no-option":
 		// the documented default: the current directory (no option, or an empty string)
 		wd, _ := os.Getwd()
@@ -175,7 +182,7 @@ func init() {
 						b.Target = "missing"
 						c06Case(c, b)
 						if n <= 3 {
-							for _, tg := range []string{"cwd-empty-option", "cwd-no-option"} {
+							for _, tg := range []string{"cwd-empty-option", "cwd-no-option", "trailing-slash", "relative"} {
 								b := base
 								b.Target = tg
 								c06Case(c, b)
